@@ -2077,6 +2077,8 @@ pub fn array_values(
     // Add next() method
     let next_fn = interp.create_native_function("next", array_iterator_next, 0);
     guard.guard(next_fn.cheap_clone());
+    // Owned by the iterator from here on, not a permanent root
+    interp.root_guard.unguard(&next_fn);
     iter_obj
         .borrow_mut()
         .set_property(next_key, JsValue::Object(next_fn));
@@ -2088,6 +2090,8 @@ pub fn array_values(
     let iterator_key = PropertyKey::Symbol(Box::new(iterator_symbol));
     let self_fn = interp.create_native_function("[Symbol.iterator]", return_this, 0);
     guard.guard(self_fn.cheap_clone());
+    // Owned by the iterator from here on, not a permanent root
+    interp.root_guard.unguard(&self_fn);
     iter_obj
         .borrow_mut()
         .set_property(iterator_key, JsValue::Object(self_fn));
